@@ -424,10 +424,15 @@ func advNatHoleResps(g *hx.Gen, tid string) []*msg.NatHoleResp {
 	b.CandidatePorts = advPortsRanges(g)
 	b.SendRandomPorts = []int{0, 0, 1, 5, -1, math.MaxInt32}[g.Intn(6)]
 	b.ListenRandomPorts = []int{0, 0, 1, 3, 16, -1, math.MinInt64, 256, 1024, 70000, math.MaxInt32, math.MaxInt64}[g.Intn(12)]
-	if b.ListenRandomPorts > 16 && (b.ReadTimeoutMs <= 0 || b.ReadTimeoutMs > 100) {
-		// many sockets AND a peer-chosen long hold is a different input class (see design/C16.md, "Not covered"): here the
-		// sockets are given back after at most 100 ms
-		b.ReadTimeoutMs = 100
+	if b.ListenRandomPorts > 16 {
+		// many sockets AND a peer-chosen long hold (read time-out, or candidate port ranges walked at 2 ms per port and socket
+		// before the wait starts) is a different input class (see design/C16.md, "Not covered"): here the sockets are given
+		// back after about 100 ms
+		if b.ReadTimeoutMs <= 0 || b.ReadTimeoutMs > 100 {
+			b.ReadTimeoutMs = 100
+		}
+		b.CandidatePorts = nil
+		b.SendDelayMs = 0
 	}
 	if g.Chance(0.1) {
 		r.Error = g.Pick(advStrings)
@@ -612,6 +617,7 @@ type epoch struct {
 	nWD      int
 	loginTO  time.Duration
 	dumpDir  string
+	dumped   bool
 }
 
 func (e *epoch) replay() string {
@@ -676,6 +682,9 @@ func (e *epoch) checkCrash(kind string) bool {
 	if e.ch.alive() {
 		return false
 	}
+	if e.dumped { // we ended it ourselves (SIGQUIT for the goroutine stacks of a wedge already reported)
+		return true
+	}
 	time.Sleep(30 * time.Millisecond) // let the stderr pipe drain
 	st := e.ch.stderr()
 	where := crashFrame(st)
@@ -698,6 +707,7 @@ func (e *epoch) goroutineDump() string {
 		return ""
 	}
 	before := len(e.ch.stderr())
+	e.dumped = true
 	_ = e.ch.cmd.Process.Signal(syscall.SIGQUIT)
 	select {
 	case <-e.ch.done:
